@@ -273,6 +273,8 @@ type step struct {
 	// snap: a reader (a query, a data load) takes a kv snapshot (Family.GetSnapshot) and keeps it;
 	// release: the reader with that id closes its snapshot(s). A restart drops every reader.
 	Reader *readerOp `json:"reader,omitempty"`
+	// flush: a rollup job is triggered inside the commit(s) of the flush (commit_window_test.go)
+	RollAt *commitRoll `json:"rollAt,omitempty"`
 }
 
 // readerOp: reader ID holds a snapshot of source family Fam (Target == 0) or of the family of
@@ -446,7 +448,10 @@ func genPlan(t *rapid.T) *plan {
 	}
 	recover()
 	for i := 1; i < nSteps; i++ {
-		switch k := rapid.IntRange(0, 119).Draw(t, "stepKind"); {
+		switch k := rapid.IntRange(0, 133).Draw(t, "stepKind"); {
+		case k >= 120:
+			// rollup jobs triggered inside the commit of a source flush
+			p.Steps = append(p.Steps, g.commitWindowEpisode(mkRollup)...)
 		case k >= 112:
 			p.Steps = append(p.Steps, g.compactTarget())
 		case k >= 100:
@@ -1736,7 +1741,9 @@ func (f *famState) hasUnacked() bool {
 }
 
 // flush follows the production flush order: metadata, index, then the data families.
-func (e *env) flush(idx []int) {
+func (e *env) flush(idx []int) { e.flushStep(idx, nil, "") }
+
+func (e *env) flushStep(idx []int, cr *commitRoll, when string) {
 	db, ok := e.n.Engine.GetDatabase(e.db)
 	if !ok {
 		e.fatalf("database not found")
@@ -1755,7 +1762,13 @@ func (e *env) flush(idx []int) {
 		e.fatalf("flush index: %v", err)
 	}
 	for _, f := range e.selected(idx) {
-		if err := f.df.Flush(); err != nil {
+		var err error
+		if cr != nil {
+			err = e.flushFamilyInsideWindow(f, cr, when)
+		} else {
+			err = f.df.Flush()
+		}
+		if err != nil {
 			e.fatalf("flush family %v: %v", f.pos, err)
 		}
 		e.memToFile(f)
@@ -3252,8 +3265,12 @@ func (e *env) runQueries() {
 // ---- the property -------------------------------------------------------------------------------------
 
 func runPlan(t tb, p *plan) (classes []string, nontrivial bool) {
-	version.VerifSetFSHookWithFaults(theImager.hook, theImager.faultFn)
+	version.VerifSetFSHookWithFaults(func(op, path string, before bool) {
+		theImager.hook(op, path, before)
+		theCommitWindow.hook(op, path, before)
+	}, theImager.faultFn)
 	defer version.VerifSetFSHook(nil)
+	defer theCommitWindow.disarm()
 	table.VerifSetFSHook(theInjector.hook)
 	defer table.VerifSetFSHook(nil)
 	defer theInjector.disarm()
@@ -3299,7 +3316,12 @@ func runPlan(t tb, p *plan) (classes []string, nontrivial bool) {
 		case "write":
 			e.write(s.Points, s.Direct)
 		case "flush":
-			e.flush(s.Families)
+			e.flushStep(s.Families, s.RollAt, when)
+			if s.RollAt != nil {
+				// the job inside the commit acknowledged exactly what it merged; the file of the
+				// flush is listed for every interval
+				e.checkBookkeeping(when, e.fams, true)
+			}
 		case "rollup":
 			e.rollup(s, when)
 			// after a rollup job (or on the image of an interrupted one) the source families list
